@@ -395,6 +395,35 @@ def load_known(pid):
 
 
 # ------------------------------------------------------------------- a check
+def foreign_correspondence(check_cls, tier, seed, limit):
+    """the correspondence and the oracle of ANOTHER property's check on `limit` of its cases, as a further tie
+    (used where a property is stated over the objects another property models); returns (name, ok, detail)"""
+    c = check_cls(tier, seed)
+    cases = (list(c.corpus()) + list(c.gen_cases()))[:limit]
+    try:
+        c.prepare(cases)
+    except Exception as e:      # noqa
+        return (f"{c.pid}-correspondence", False, f"prepare failed: {e!r}")
+    pairs, fails, paired = [], [], []
+    for x in cases:
+        try:
+            o = c.run_impl(x)
+        except Exception as e:      # noqa
+            o = Err(99, f"harness: {type(e).__name__}: {e}")
+        mt = c.model_term(x)
+        if mt is not None:
+            pairs.append((mt, c.model_value(x, o)))
+            paired.append(x)
+        h = c.holds(x, o)
+        if h is not True:
+            fails.append(str(h)[:300])
+    mism, _ = run_cases(c.pid + "x", c.corr_imports, pairs, shard=getattr(c, "shard", 400))
+    ok = not mism and not fails
+    return (f"{c.pid}-correspondence", ok, f"{len(pairs)} cases of the {c.pid} check (real code against its model): {len(mism)} differ, "
+            f"{len(fails)} fail its oracle {fails[:1] if fails else ''}"
+            + (f"; first differing case: {json.dumps(c.describe(paired[mism[0]]), default=repr)[:500]}" if mism else ""))
+
+
 class Check:
     """Subclass per property; see module docstring."""
     pid = None
